@@ -215,6 +215,21 @@ CLAIMED.update({
         design_ref='DESIGN.md §6 C18'),
 })
 
+CLAIMED.update({
+    'C15': dict(
+        text='Lean 4 model of the discrete core of the OpenSfM converter: focal normalisation by the largest image side and its '
+             'inverse (exact rationals), camera mapping, zero-padded point keys and the importer\'s string sort, shot/camera '
+             'binding, feature file naming, match pair naming; 17 theorems incl. point_key_strict_mono (keys are strictly '
+             'monotone in Python str order for ANY cloud size) and points_roundtrip (importPoints (exportPoints pts) = pts for '
+             'every list). Tied by full export_opensfm -> import_opensfm loops on generated datasets (0..1500 points, with and '
+             'without features and matches) compared with the model, plus an implementation-only oracle comparing the dataset '
+             'before export with the dataset after import by image name.',
+        note=COMMON_NOTE + 'PARTIAL: JSON / npz / gzip-pickle / kapture text serialisation, os.walk, numpy conversions, '
+             'numpy-quaternion rotation-vector maps and IEEE rounding are exercised by the loops only.',
+        technique='Lean 4 proof on the converter\'s arithmetic/ordering core + full export-import loop correspondence',
+        design_ref='DESIGN.md §6 C15'),
+})
+
 NOT_YET = {
 }
 
